@@ -525,12 +525,18 @@ def _raw_call(f, text, pos):
 
 _raw_limited = common.limited(_raw_call)
 # the calls made in this process, most recent last (call_sequences and the scripts below): a failure inside a script may
-# be due to what an EARLIER call left behind in the library, so the replay carries the calls that preceded the script
-CALL_LOG = collections.deque(maxlen=120)
+# be due to what an EARLIER call left behind in the library -- or to what the caller did to an EARLIER answer the library
+# still refers to -- so the replay carries the calls that preceded the script (f, text, pos, serial number of the answer)
+# and the in-place uses of those answers ('use', serial, how, k, pos)
+CALL_LOG = collections.deque(maxlen=240)
+_SERIAL = [0]
+_LAST_SERIAL = [None]
 
 
 def raw_call(f, text, pos):
-    CALL_LOG.append((f, text, pos))
+    _SERIAL[0] += 1
+    _LAST_SERIAL[0] = _SERIAL[0]
+    CALL_LOG.append((f, text, pos, _SERIAL[0]))
     return _raw_limited(f, text, pos)
 
 
@@ -654,7 +660,7 @@ def run_owned_script(text, items, steps, cover=None):
         if st['op'] == 'ask':
             src = ''.join(list(text)) if st.get('copy') else text
             raw = raw_call(st['func'], src, st['pos'])
-            slots[st['slot']] = {'func': st['func'], 'pos': st['pos'], 'raw': raw, 'used': False}
+            slots[st['slot']] = {'func': st['func'], 'pos': st['pos'], 'raw': raw, 'used': False, 'serial': _LAST_SERIAL[0]}
             why = oracle_one(text, items, st['pos'], st['func'], canon(st['func'], raw))
             if why:
                 return (n, st['func'], st['pos'], why, 'asked again' if st.get('again') else 'asked')
@@ -662,6 +668,7 @@ def run_owned_script(text, items, steps, cover=None):
             sl = slots[st['slot']]
             if sl['raw'][0] == 'ok' and use_answer(sl['raw'][1], st['how'], st['k'], sl['pos']):
                 sl['used'] = True
+                CALL_LOG.append(('use', sl['serial'], st['how'], st['k'], sl['pos']))
                 if cover:
                     cover('owned:use:%s:%s' % (sl['func'], st['how']))
         elif st['op'] == 'reread':
@@ -719,20 +726,35 @@ def owned_script(rng, text, pos, f, cover):
 
 def pack_calls(calls):
     texts = []
-    for _, t, _ in calls:
-        if t not in texts:
-            texts.append(t)
-    return {'texts': texts, 'calls': [[f, texts.index(t), p] for f, t, p in calls]}
+    out = []
+    for c in calls:
+        if c[0] == 'use':
+            out.append(list(c))
+            continue
+        if c[1] not in texts:
+            texts.append(c[1])
+        out.append([c[0], texts.index(c[1]), c[2]] + ([c[3]] if len(c) > 3 else []))
+    return {'texts': texts, 'calls': out}
 
 
 def replay_owned(text, items, steps, calls_before):
-    """the script alone; when the property holds on it, the recorded earlier calls and then the script"""
-    bad = run_owned_script(text, items, steps)
-    if bad or not calls_before or not calls_before.get('calls'):
-        return bad, False
-    for f, ti, p in calls_before['calls']:
-        raw_call(f, calls_before['texts'][ti], p)
-    return run_owned_script(text, items, steps), True
+    """In a fresh process: the recorded earlier calls (and what the caller did to their answers) and then the script,
+    i.e. what the run did; when the property holds on that, the script once more alone."""
+    if calls_before and calls_before.get('calls'):
+        kept = {}
+        for c in calls_before['calls']:
+            if c[0] == 'use':
+                raw = kept.get(c[1])
+                if raw is not None and raw[0] == 'ok':
+                    use_answer(raw[1], c[2], c[3], c[4])
+            else:
+                raw = raw_call(c[0], calls_before['texts'][c[1]], c[2])
+                if len(c) > 3:
+                    kept[c[3]] = raw
+        bad = run_owned_script(text, items, steps)
+        if bad:
+            return bad, True
+    return run_owned_script(text, items, steps), False
 
 
 def caller_owned_answers(ctx, docs, per_sheet):
@@ -761,8 +783,9 @@ def caller_owned_answers(ctx, docs, per_sheet):
                          'note': 'steps: ask = call func(text, pos) (copy: with an equal string built separately) and keep '
                                  'the raw answer in the slot; use = the caller edits the answer of that slot in place; '
                                  'reread = read the kept answer of that slot again; calls_before = the calls made in the '
-                                 'process before the script (the replay runs the script alone and, when that passes, '
-                                 'these calls and then the script)'})
+                                 'process before the script, [func, text index, pos, serial], and the in-place uses of '
+                                 'their answers, [use, serial, how, k, pos] (the replay runs these and then the script '
+                                 'and, when that passes, the script alone)'})
                     if bad_n >= 5:
                         break
             if bad_n >= 5:
